@@ -227,6 +227,8 @@ const SEEDS: &[&str] = &[
     "\"\u{e9}", "\"", "\\", "r7;x", "x10;c", "#5;c", "add r0,r0,#5;c", "lab .break", ".break .break", ".break",
     "lab .orig x3000", ".orig x3000 lab", "lab .end", "push r0", "call x", "rets", "pop",
     ".blkw #-1", ".blkw x0", ".fill #-32768", ".orig #-1", "br #-2", "br #-257", "jsr #-1025", "ldr r0 r0 #-33",
+    "x12345", ".orig x3000000", "a 0x123456", "#99999", "x-12345", "0xFFFFF add r0 r0 r0", ".stringz \"caf\u{e9}\\n\"",
+    ".stringz \"\u{65e5}\u{672c}\\n\"", "s .stringz \"ok \u{1F44D} \\\"yes\\\"\"", ".stringz \"\u{e9}\\\\\"", ".fill ; x1234", ".fill;todo", ".blkw ; c",
     "a\0b", "\0", "add r0\0 r0 r0", "r0", "R7 R7", "#1", "x1", "\"s\"", ", , ,", ":::", "lab: :lab2",
 ];
 
